@@ -352,5 +352,71 @@ pub fn run_path(cfg: &Cfg, path: &PathRec<Post>, record: bool) -> (PathResult, V
         drop(keep);
     });
     rt.shutdown_background();
+    // The manager crate carries no schedule points: what two recycles running at the same moment on
+    // different worker threads do to the pool's PING counter is only seen by letting them run.  A sample
+    // of the recorded paths ends with such a phase on a pool and a server of its own; the monitor judges
+    // it with the same predicates (R17b: no PING value twice on one pool).
+    if record && path.id % 64 == 0 {
+        lines.push(stress(path.id, path.steps.len() + 2));
+    }
     (res, lines)
+}
+
+fn stress(run: u64, i: usize) -> String {
+    const N: usize = 8;
+    let srv: Arc<Mutex<Srv>> = Arc::new(Mutex::new(Srv::default()));
+    let listener = TcpListener::bind("127.0.0.1:0").unwrap();
+    let port = listener.local_addr().unwrap().port();
+    let srv2 = srv.clone();
+    std::thread::spawn(move || {
+        for s in listener.incoming().flatten() {
+            let ix = {
+                let mut g = srv2.lock().unwrap();
+                g.conns.push(ConnLog::default());
+                g.conns.len() - 1
+            };
+            let srv3 = srv2.clone();
+            std::thread::spawn(move || serve(s, ix, srv3));
+        }
+    });
+    let rt = tokio::runtime::Builder::new_multi_thread().worker_threads(N).enable_all().build().unwrap();
+    let (size, got) = rt.block_on(async {
+        let mut c = Config::from_url(format!("redis://127.0.0.1:{}/", port));
+        c.pool = Some(PoolConfig::new(N));
+        let pool = c.create_pool(Some(Runtime::Tokio1)).unwrap();
+        let mut first = vec![];
+        for _ in 0..N {
+            if let Ok(Ok(c)) = tokio::time::timeout(Duration::from_secs(5), pool.get()).await {
+                first.push(c);
+            }
+        }
+        drop(first);
+        let mut hs = vec![];
+        for _ in 0..N {
+            let pool = pool.clone();
+            hs.push(tokio::spawn(async move {
+                let mut ok = 0usize;
+                for _ in 0..40 {
+                    if let Ok(Ok(c)) = tokio::time::timeout(Duration::from_secs(5), pool.get()).await {
+                        ok += 1;
+                        drop(c);
+                    }
+                    tokio::task::yield_now().await;
+                }
+                ok
+            }));
+        }
+        let mut got = 0;
+        for h in hs {
+            got += h.await.unwrap_or(0);
+        }
+        (pool.status().size, got)
+    });
+    rt.shutdown_background();
+    let s = srv.lock().unwrap();
+    // (size / probe are not judged here: k is neither "step" nor "probe")
+    json!({"run": run, "i": i, "k": "stress", "act": "Stress", "size": size, "taken_reissued": 0, "take_size_bad": 0, "taken_recycled": 0, "avail": 0, "max": N,
+           "held": Vec::<u32>::new(), "last_get": format!("ok x{}", got), "dup_pings": s.dup_pings, "npings": s.pings.len(),
+           "bad_reuse": 0, "reuses": 0, "probe_got": -1})
+    .to_string()
 }
